@@ -52,7 +52,7 @@ HStep ==
           CASE op[1] = "in"    -> log' = Append(log, <<"in", f.h, Probe>>) /\ stack' = adv /\ UNCHANGED <<idx, crash, chain, ab>>
             [] op[1] = "out"   -> log' = Append(log, <<"out", f.h, Probe>>) /\ stack' = adv /\ UNCHANGED <<idx, crash, chain, ab>>
             [] op[1] \in {"abort", "abortStatus"} -> idx' = AbortIdx /\ ab' = TRUE /\ stack' = adv /\ UNCHANGED <<log, crash, chain>>
-            [] op[1] = "next"  -> /\ idx' = (IF D_NextCreeps THEN Wrap(idx + 1) ELSE idx)
+            [] op[1] \in {"next", "nextdefer"} -> /\ idx' = (IF D_NextCreeps THEN Wrap(idx + 1) ELSE idx)
                                   /\ stack' = Append(adv, LFrame) /\ UNCHANGED <<log, crash, chain, ab>>
             [] op[1] = "catchnext" -> /\ idx' = (IF D_NextCreeps THEN Wrap(idx + 1) ELSE idx)
                                       /\ stack' = Append(adv, CatchFrame) /\ UNCHANGED <<log, crash, chain, ab>>
